@@ -49,7 +49,10 @@ def full_trajectory(case, specie='Li', species_kind='Species'):
 
 
 def sites(case, specie='Li'):
-    return cases.sites_structure(case['lattice']['matrix'], case['sites']['frac'], case['sites']['labels'], specie)
+    frac = np.array(case['sites']['frac'], float)
+    if case['sites'].get('image_shift') is not None:
+        frac = frac + np.array(case['sites']['image_shift'], float)
+    return cases.sites_structure(case['lattice']['matrix'], frac, case['sites']['labels'], specie)
 
 
 def radius_arg(case):
